@@ -16,7 +16,8 @@ from ..seqengine import World, WorldPool
 
 ID = "C19"
 LEVEL = "exploration"
-RULE = ("start states = every history of length <= H (2 quick / 3 thorough) over a 20-operation menu (pids p/q, "
+RULE = ("start states = histories over a 20-operation menu (quick: 150 sampled of length <= 2, 24 sampled combinations each; "
+        "thorough: ALL 421 of length <= 2 with the full 144-combination product + 1500 sampled of length 3 x 24) (pids p/q, "
         "contents A/B: store with/without pid, tag, delete, delete_if_invalid right/wrong); for each, the subject "
         "pid (free: 's', or already bound: 'p') x content {A, B, never-seen C} x validation {absent, correct "
         "size+checksum (sha256, md5, sha3_256, blake2b), UPPER-case checksum, wrong checksum, wrong size, both "
@@ -41,11 +42,18 @@ def shards(tier, seed):
     hist = [()]
     for n in range(1, H + 1):
         hist += list(itertools.product(range(len(menu)), repeat=n))
+    rng = random.Random(seed * 1000 + 19)
     if tier == "quick":
-        rng = random.Random(seed * 1000 + 19)
         rng.shuffle(hist)
         hist = [()] + hist[:150]
-    return [(c, tier, s) for c, s in zip(chunk(hist, ncpu() * 2), split_seeds(seed + 19, ncpu() * 2))]
+    else:
+        # every history of length <= 2 with the full product of subjects/contents/validations/kinds, plus a
+        # seeded sample of the 8000 length-3 histories with 24 combinations each
+        short = [h for h in hist if len(h) <= 2]
+        long3 = [h for h in hist if len(h) == 3]
+        rng.shuffle(long3)
+        hist = short + long3[:1500]
+    return [(c, tier, s) for c, s in zip(chunk(hist, ncpu() * 4), split_seeds(seed + 19, ncpu() * 4))]
 
 
 def min_required(tier):
@@ -96,7 +104,7 @@ def run_shard(histories, tier, sub_seed):
             start = w.abstract()
             referenced = {p: c for p, c in w.model.bound.items() if c in w.model.objects}
             combos = list(itertools.product(["s", "p"], ["A", "B", "C"], VALIDATIONS, ["path", "bytesio"]))
-            if tier == "quick":
+            if tier == "quick" or len(h) == 3:
                 combos = rng.sample(combos, 24)
             for subject, cname, v, kind in combos:
                 data = contents[cname]
